@@ -44,6 +44,8 @@ def run(ctx):
                      'legacy wrapper under the same name, and vice versa', 2)
     ctx.rule('R16f', 'std_macro builds the argument string as optional `[` followed by numargs `{`; '
                      'std_environment forwards to it with make_environment_spec', 2)
+    ctx.rule('R16i', 'legacy methods never test a numeric option (read_max_nodes, ...) by truthiness: 0 is a '
+                     'value distinct from the None default', 1)
     ctx.rule('R16h', 'get_latex_nodes(stop_upon_closing_brace=...): the closing delimiter registered in '
                      'the parsing state is the value the stop condition compares the token with, for the '
                      'one-character and the (open, close) form alike', 2)
@@ -176,6 +178,36 @@ def run(ctx):
         ctx.decide('R16a', fw, w, gp[0], 'all stop options forwarded under their own names',
                    'get_latex_nodes does not forward all of its stop options to '
                    'LatexGeneralNodesParser under their own names', construct='get_latex_nodes: forwarding')
+
+    # ---- R16i: a numeric option is never tested by truthiness (0 is a value, None means "unset")
+    from . import gcommon
+    n_num = 0
+    for shim, fnode in sorted(w.functions.items()):
+        if not shim.startswith('_pyltxenc2_LatexWalker_') or '.' in shim:
+            continue
+        scope = [fnode] + [x for x in ast.walk(fnode) if isinstance(x, ast.FunctionDef) and x is not fnode]
+        numeric = set()
+        for g_ in scope:
+            for c_ in iter_own(g_):
+                if isinstance(c_, ast.Compare) and len(c_.ops) == 1 and isinstance(
+                        c_.ops[0], (ast.Lt, ast.LtE, ast.Gt, ast.GtE)):
+                    for side, other in ((c_.left, c_.comparators[0]), (c_.comparators[0], c_.left)):
+                        if isinstance(side, ast.Name) and (
+                                (isinstance(other, ast.Call) and call_name(other) == 'len') or
+                                (isinstance(other, ast.Constant) and isinstance(other.value, int))):
+                            numeric.add(side.id)
+        for g_ in scope:
+            for t_, where in gcommon.truthiness_tests(g_):
+                x = t_.operand if isinstance(t_, ast.UnaryOp) and isinstance(t_.op, ast.Not) else t_
+                if isinstance(x, ast.Name) and x.id in numeric:
+                    n_num += 1
+                    ctx.refuted('R16i', w, where, 'the numeric option %s (compared with a length elsewhere in '
+                                '%s) is tested by truthiness: the value 0 is treated like "not given", so '
+                                '%s=0 reads the whole input where the equivalent new-style stop condition '
+                                'stops at once' % (x.id, shim.replace('_pyltxenc2_LatexWalker_', ''), x.id),
+                                construct='%s: truthiness of %s' % (shim, x.id))
+    ctx.holds('R16i', w, None, 'no numeric option of a legacy method is tested by truthiness',
+              construct='numeric option scan', trivial=True)
 
     # ---- R16h: the closing delimiter compared by the stop condition == the one registered
     from .. import symex
